@@ -268,7 +268,7 @@ def run(ctx):
     if cases and not ctx.corr_broken and not ctx.violations:
         for k in ("input_with_password_and_secret", "secret_ref", "password", "unnumbered", "repeated_prefix", "repeated_prefix_other_localpref",
                   "adv_with_localpref", "communities", "neighbor_without_advertisement", "multi_neighbor", "pw_cases", "flap_histories", "flap_node_label_changes",
-                  "deliver_runs", "deliver_consumer_started_late", "deliver_stream_runs", "deliver_debug_level_with_password", "reconciled_single_field_changes", "reconciled_shrink_to_empty", "reconciled_cases", "reconciled_at_debug", "reconciled_with_password", "reconciled_with_secret_ref",
+                  "deliver_runs", "deliver_consumer_started_late", "deliver_stream_runs", "deliver_debug_level_with_password", "deliver_extra_reconciles", "reconciled_single_field_changes", "reconciled_shrink_to_empty", "reconciled_cases", "reconciled_at_debug", "reconciled_with_password", "reconciled_with_secret_ref",
                   "k8s_histories", "k8s_hist_rejected_set", "k8s_hist_resync", "k8s_hist_close", "k8s_hist_set"):
             if k.startswith("flap_") and st.get("whitebox_skipped:speaker-bgp-handler", 0):
                 continue    # the speaker's protocol-handler map was not found by type: that harness skipped itself
